@@ -108,13 +108,13 @@ def program(name, inputs, steps, outputs, half=None, doc=""):
     sig = ", ".join("%s: F2" % v for v in allv)
     conj = []
     for s in steps:
-        if s[1] == "half": conj.append("m2_add(%s, %s) == %s" % (s[0], s[0], ref(s[2])))
-        elif len(s) > 4 and s[4] == "let": lets[s[0]] = "m2_%s(%s, %s)" % (s[1], ref(s[2]), ref(s[3]))
-        else: conj.append("%s == m2_%s(%s, %s)" % (s[0], s[1], ref(s[2]), ref(s[3])))
+        if s[1] == "half": conj.append("o_add(%s, %s) == %s" % (s[0], s[0], ref(s[2])))
+        elif len(s) > 4 and s[4] == "let": lets[s[0]] = "o_%s(%s, %s)" % (s[1], ref(s[2]), ref(s[3]))
+        else: conj.append("%s == o_%s(%s, %s)" % (s[0], s[1], ref(s[2]), ref(s[3])))
     OUT.append("// %s" % doc if doc else "// values computed by %s" % name)
     OUT.append("spec fn %s_rel(%s) -> bool {\n    %s\n}" % (name, sig, "\n    && ".join(conj)))
     poly = {i: E("v", i + "p") for i in inputs}
-    calls = []
+    calls = ["reveal(o_mul); reveal(o_add); reveal(o_sub);"]
     for s in steps:
         r = s[0]
         if s[1] == "half":
@@ -510,7 +510,7 @@ proof fn cv_neg(X: F2, Y: F2, Z: F2, ny: F2)
     t2_cn(ny, Y, Y);
     if Z != m2_zero() {{
         let zi = m2_inv(Z);
-        let b1 = m2_mul(Y, zi); t2_cm(b1, Y, zi, Y, zi); let b2 = m2_mul(b1, zi); t2_cm(b2, b1, zi, {q(y*zi).replace("y", "Y")}, zi);
+        let b1 = m2_mul(Y, zi); t2_cm(b1, Y, zi, Y, zi); let b2 = m2_mul(b1, zi); t2_cm(b2, b1, zi, q_mul(Y, zi), zi);
         let ya = m2_mul(b2, zi); t2_cm(ya, b2, zi, q_mul(q_mul(Y, zi), zi), zi);
         let c1 = m2_mul(ny, zi); t2_cm(c1, ny, zi, q_sub(q_c(0), Y), zi); let c2 = m2_mul(c1, zi); t2_cm(c2, c1, zi, q_mul(q_sub(q_c(0), Y), zi), zi);
         let na = m2_mul(c2, zi); t2_cm(na, c2, zi, q_mul(q_mul(q_sub(q_c(0), Y), zi), zi), zi);
